@@ -10,21 +10,35 @@
 From AM Require Export Base.Prelude Model.Matchers Model.Inhibit.
 
 Record obs := mkObs {
-  o_mutes : list (bool * option (list (string * string)));
-    (* per label set of the case: Mutes' verdict, the reported inhibitedBy fingerprint (as its label set) *)
-  o_state : list (list (list (string * string)) * list (list (list (string * string))))
-    (* per rule: fingerprints in the source cache, and the index's classes *)
+  o_mutes : list Z;
+    (* per label set of the case: -1 = Mutes said false; i >= 0 = Mutes said true and the marker's inhibitedBy is
+       the fingerprint of label set number i of the case (any other number: an unknown fingerprint) *)
+  o_state : list (list Z * list (list Z))
+    (* per rule: fingerprints in the source cache, and the index's classes (as label set numbers) *)
 }.
 
+(* operations as the harness writes them (label sets by number, to keep the case files small) *)
 Inductive xop :=
-| XOp (o : op)
-| XReset.     (* configuration reload: a fresh Inhibitor (which then slurps the provider's alerts: OProcess ops) *)
+| XPut (l : Z) (starts ends upd : Z)  (* the inhibitor was sent this update of label set number l *)
+| XGC
+| XTick
+| XReset.     (* configuration reload: a fresh Inhibitor (which then slurps the provider's alerts: XPut ops) *)
 
 Record case := mkCase {
   c_re : re_table;
   c_rules : list rule;
   c_lsets : list (list (string * string));
   c_hist : list (Z * xop * option obs) }.
+
+Definition lset_of (c : case) (i : Z) : list (string * string) :=
+  if i <? 0 then [("<unknown>", "")] else nth (Z.to_nat i) (c_lsets c) [("<unknown>", "")].
+Definition op_of (c : case) (x : xop) : option op :=
+  match x with
+  | XPut l s e u => Some (OProcess (mkA (lset_of c l) s e u))
+  | XGC => Some OGC
+  | XTick => Some OTick
+  | XReset => None
+  end.
 
 Definition subset_b {A} `{EqDecision A} (l1 l2 : list A) : bool := forallb (fun x => bool_decide (x ∈ l2)) l1.
 Definition same_set {A} `{EqDecision A} (l1 l2 : list A) : bool := subset_b l1 l2 && subset_b l2 l1.
@@ -33,19 +47,18 @@ Definition same_classes {A} `{EqDecision A} (l1 l2 : list (list A)) : bool :=
   (length l1 =? length l2)%nat.
 
 (* the model state and the history segment since the last (re)start, after each operation *)
-Fixpoint points (re : string -> string -> bool) (cfgs : list rule) (ih : list irule) (seg : list (Z * op))
+Fixpoint points (c : case) (ih : list irule) (seg : list (Z * op))
     (h : list (Z * xop * option obs)) : list (list irule * list (Z * op) * Z * option obs) :=
   match h with
   | [] => []
   | (now, x, ob) :: rest =>
-      let '(ih', seg') := match x with
-                          | XOp o => (step re ih now o, seg ++ [(now, o)])
-                          | XReset => (map new_rule cfgs, [])
+      let '(ih', seg') := match op_of c x with
+                          | Some o => (step (re_of_table (c_re c)) ih now o, seg ++ [(now, o)])
+                          | None => (map new_rule (c_rules c), [])
                           end in
-      (ih', seg', now, ob) :: points re cfgs ih' seg' rest
+      (ih', seg', now, ob) :: points c ih' seg' rest
   end.
-Definition case_points (c : case) :=
-  points (re_of_table (c_re c)) (c_rules c) (map new_rule (c_rules c)) [] (c_hist c).
+Definition case_points (c : case) := points c (map new_rule (c_rules c)) [] (c_hist c).
 
 Definition model_state (ih : list irule) :=
   map (fun r => (map fst (map_to_list (ir_sc r)), map snd (map_to_list (ir_ix r)))) ih.
@@ -55,11 +68,10 @@ Definition model_obs (c : case) (p : list irule * list (Z * op) * Z * option obs
   (map (fun ls => mutes (re_of_table (c_re c)) ih ls now) (c_lsets c), model_state ih).
 Definition show_case (c : case) := map (model_obs c) (case_points c).
 
-Definition mutes_agree (m : option (list (list (string * string)))) (o : bool * option (list (string * string))) : bool :=
-  match m, o with
-  | None, (false, None) => true
-  | Some fs, (true, Some f) => bool_decide (f ∈ fs)
-  | _, _ => false
+Definition mutes_agree (c : case) (m : option (list (list (string * string)))) (o : Z) : bool :=
+  match m with
+  | None => o =? -1
+  | Some fs => (0 <=? o) && bool_decide (lset_of c o ∈ fs)
   end.
 Fixpoint all2 {A B} (f : A -> B -> bool) (l1 : list A) (l2 : list B) : bool :=
   match l1, l2 with
@@ -67,15 +79,16 @@ Fixpoint all2 {A B} (f : A -> B -> bool) (l1 : list A) (l2 : list B) : bool :=
   | a :: r1, b :: r2 => f a b && all2 f r1 r2
   | _, _ => false
   end.
-Definition state_agree (m o : list (list (string * string)) * list (list (list (string * string)))) : bool :=
-  same_set (fst m) (fst o) && same_classes (snd m) (snd o).
+Definition state_agree (c : case) (m : list (list (string * string)) * list (list (list (string * string))))
+    (o : list Z * list (list Z)) : bool :=
+  same_set (fst m) (map (lset_of c) (fst o)) && same_classes (snd m) (map (map (lset_of c)) (snd o)).
 
 Definition check_point (c : case) (p : list irule * list (Z * op) * Z * option obs) : bool :=
   match p with
   | (_, _, _, None) => true
   | (ih, _, now, Some ob) =>
-      all2 mutes_agree (map (fun ls => mutes (re_of_table (c_re c)) ih ls now) (c_lsets c)) (o_mutes ob) &&
-      all2 state_agree (model_state ih) (o_state ob)
+      all2 (mutes_agree c) (map (fun ls => mutes (re_of_table (c_re c)) ih ls now) (c_lsets c)) (o_mutes ob) &&
+      all2 (state_agree c) (model_state ih) (o_state ob)
   end.
 Definition check_case (c : case) : bool := forallb (check_point c) (case_points c).
 
